@@ -148,6 +148,14 @@ func (r *Run) enterBlock(st *State, fr *Frame, to *ssa.BasicBlock) bool {
 		}
 		outer := r.outerLoopInvariants(st, fr, li.Ordinal)
 		fname := e.fnName[fr.Fn]
+		if !back {
+			// snapshot of the locals at loop entry, for atentry(N, x) in invariants
+			snap := map[string]Val{}
+			for name, c := range fr.Cells {
+				snap[name] = st.Cells[c]
+			}
+			st.Ghost[fmt.Sprintf("loopsnap:%s:%d", fname, li.Ordinal)] = snap
+		}
 		if back {
 			for _, c := range invs {
 				e.obligationClause(st, fr, fmt.Sprintf("%s/loop%d/preserve:%s", fname, li.Ordinal, c.Label()), c, nil)
@@ -1116,11 +1124,15 @@ func (r *Run) fieldAddr(st *State, fr *Frame, x *ssa.FieldAddr) Val {
 	pt := x.X.Type().Underlying().(*types.Pointer).Elem()
 	s := pt.Underlying().(*types.Struct)
 	f := s.Field(x.Field)
+	if a, ok := r.val(st, fr, x.X).(*Addr); ok && a.Kind == ACell {
+		// a struct value held in a local variable (external struct types are opaque values)
+		return &Addr{Kind: ASubField, Cell: a.Cell, FName: f.Name(), FieldT: f.Type(), Owner: namedOf(pt)}
+	}
 	base := e.asTerm(r.val(st, fr, x.X), SRef)
 	key := e.structKey(pt)
 	reg := fieldRegionName(key, f.Name())
 	r.safeNil(st, fr, x, base)
-	if _, ok := f.Type().Underlying().(*types.Struct); ok {
+	if _, ok := f.Type().Underlying().(*types.Struct); ok && isObjectStruct(f.Type()) {
 		nr := e.nestedRef(reg, base)
 		e.nested[nr.S] = &NestedInfo{Owner: key, Field: f.Name(), Base: base, Typ: f.Type()}
 		return nr
@@ -1130,6 +1142,49 @@ func (r *Run) fieldAddr(st *State, fr *Frame, x *ssa.FieldAddr) Val {
 		owner = n
 	}
 	return &Addr{Kind: AField, Region: reg, Ref: base, FieldT: f.Type(), Owner: owner, FName: f.Name()}
+}
+
+func namedOf(t types.Type) *types.Named {
+	n, _ := t.(*types.Named)
+	return n
+}
+
+// subFieldGet / subFieldSet: uninterpreted projections of opaque struct values.
+func (e *Engine) subFieldGet(st *State, owner types.Type, val T, fname string, ft types.Type) Val {
+	so := e.sortOf(ft)
+	if so == "" {
+		return e.freshVal(st, ft, "sub_"+fname)
+	}
+	fn := e.namedFun("get_"+sanitize(string(val.So))+"_"+fname, []Sort{val.So}, so)
+	return App(so, fn, val)
+}
+
+func (r *Run) subFieldStore(st *State, a *Addr, v Val) {
+	e := r.e
+	old, ok := st.Cells[a.Cell].(T)
+	if !ok {
+		e.fail("sub-field store into non-opaque local")
+		return
+	}
+	nw := e.freshConst("upd_"+a.FName, old.So)
+	if a.Owner != nil {
+		if s, ok := a.Owner.Underlying().(*types.Struct); ok {
+			for i := 0; i < s.NumFields(); i++ {
+				f := s.Field(i)
+				so := e.sortOf(f.Type())
+				if so == "" {
+					continue
+				}
+				fn := e.namedFun("get_"+sanitize(string(old.So))+"_"+f.Name(), []Sort{old.So}, so)
+				if f.Name() == a.FName {
+					st.assume(Eq(App(so, fn, nw), e.asTerm(v, so)))
+				} else {
+					st.assume(Eq(App(so, fn, nw), App(so, fn, old)))
+				}
+			}
+		}
+	}
+	st.Cells[a.Cell] = nw
 }
 
 type NestedInfo struct {
@@ -1242,6 +1297,17 @@ func (r *Run) load(st *State, fr *Frame, av Val, t types.Type, in ssa.Instructio
 			return r.elemVal(st, a.Slice.at(a.Idx), a.Slice.ElemT, t)
 		case AGlobal:
 			return r.loadGlobal(st, a.Global)
+		case ASubField:
+			if cv, ok := st.Cells[a.Cell].(T); ok {
+				return e.subFieldGet(st, a.Owner, cv, a.FName, a.FieldT)
+			}
+			if sv, ok := st.Cells[a.Cell].(*StructV); ok {
+				for i := 0; i < sv.Typ.NumFields(); i++ {
+					if sv.Typ.Field(i).Name() == a.FName {
+						return sv.F[i]
+					}
+				}
+			}
 		}
 	case T:
 		// pointer to a struct object (or opaque pointer)
@@ -1299,6 +1365,19 @@ func (r *Run) store(st *State, fr *Frame, av Val, v Val, vt types.Type, in ssa.I
 			r.storeElem(st, fr, a, v, in)
 			return
 		case AGlobal:
+			return
+		case ASubField:
+			if sv, ok := st.Cells[a.Cell].(*StructV); ok {
+				n := &StructV{Typ: sv.Typ, F: append([]Val(nil), sv.F...)}
+				for i := 0; i < sv.Typ.NumFields(); i++ {
+					if sv.Typ.Field(i).Name() == a.FName {
+						n.F[i] = v
+					}
+				}
+				st.Cells[a.Cell] = n
+				return
+			}
+			r.subFieldStore(st, a, v)
 			return
 		}
 	case T:
